@@ -437,112 +437,85 @@ fn replay<const D: usize, const F: usize, const V: usize>(base: &Arc<BaseImage>,
     w
 }
 
-/// Stale-handle probe: every handle closed so far is fed to every method that takes a handle of that kind.
+/// Stale-handle probe: every handle closed so far is fed to every method that takes a handle of that kind,
+/// each call on its own replay so that an effect is attributed to the method that caused it.
 fn stale_probe<const D: usize, const F: usize, const V: usize>(base: &Arc<BaseImage>, id: u32, hist: &[LOp], out: &mut Vec<(String, String)>) -> u64 {
     let w0 = replay::<D, F, V>(base, id, hist);
     let mut n = 0u64;
     let dirs_full = w0.m.dirs.len() >= D;
     let files_full = w0.m.files.len() >= F;
-    let judge = |name: &str, r: Result<(), E>, alt: &[E], out: &mut Vec<(String, String)>, h: String| match r {
-        Err(E::BadHandle) => {}
-        Err(e) if alt.contains(&e) => {}
-        other => out.push((format!("stale-handle/{}-accepts-closed-handle", name), format!("{} with the closed handle {} returned {:?}, expected BadHandle", name, h, other))),
+    let df = if dirs_full { vec![E::TooManyOpenDirs] } else { vec![] };
+    let ff = if files_full { vec![E::TooManyOpenFiles] } else { vec![] };
+    type W<const D: usize, const F: usize, const V: usize> = LWorld<D, F, V>;
+    let mut one = |name: &'static str, handle: String, alt: &[E], call: &dyn Fn(&W<D, F, V>) -> Result<(), E>, out: &mut Vec<(String, String)>| {
+        let mut w = replay::<D, F, V>(base, id, hist);
+        let before = w.image_fp();
+        n += 1;
+        match catch_quiet(|| call(&w)) {
+            Caught::Ok(Err(E::BadHandle)) => {}
+            Caught::Ok(Err(e)) if alt.contains(&e) => {}
+            Caught::Ok(other) => out.push((format!("stale-handle/{}-accepts-closed-handle", name), format!("{} with the closed handle {} returned {:?}, expected BadHandle", name, handle, other))),
+            Caught::Panic(m) => {
+                out.push((format!("stale-handle/{}-panics", name), m));
+                return;
+            }
+        }
+        if w.image_fp() != before {
+            out.push((format!("stale-handle/{}/medium-changed", name), format!("{} with the closed handle {} changed the medium", name, handle)));
+        }
+        if let Caught::Ok(Err(e)) = catch_quiet(|| w.capacity_probe()) {
+            out.push((format!("stale-handle/{}/effect/{}", name, e.0), format!("after {} with the closed handle {}: {}", name, handle, e.1)));
+        }
     };
-    // volumes
-    for sv in w0.closed_vols.iter().rev().take(2) {
-        let mut w = replay::<D, F, V>(base, id, hist);
-        let before = w.image_fp();
-        let r = catch_quiet(|| {
-            let mut res: Vec<(&str, Result<(), E>, Vec<E>)> = Vec::new();
-            res.push(("open_root_dir", w.vm.open_root_dir(*sv).map(|_| ()).map_err(|e| map_err(&e)), if dirs_full { vec![E::TooManyOpenDirs] } else { vec![] }));
-            res.push(("close_volume", w.vm.close_volume(*sv).map_err(|e| map_err(&e)), vec![]));
-            res.push(("get_root_volume_label", w.vm.get_root_volume_label(*sv).map(|_| ()).map_err(|e| map_err(&e)), vec![]));
-            res
-        });
-        match r {
-            Caught::Ok(res) => {
-                for (name, r, alt) in res {
-                    n += 1;
-                    judge(name, r, &alt, out, hid(sv));
-                }
-            }
-            Caught::Panic(m) => out.push(("stale-handle/panic".into(), m)),
-        }
-        if w.image_fp() != before {
-            out.push(("stale-handle/medium-changed".into(), format!("calls with the closed volume handle {} changed the medium", hid(sv))));
-        }
-        if let Caught::Ok(Err(e)) = catch_quiet(|| w.capacity_probe()) {
-            out.push((format!("stale-handle/effect/{}", e.0), format!("after calls with the closed volume handle {}: {}", hid(sv), e.1)));
-        }
+    let me = |e: embedded_sdmmc::Error<crate::simdisk::DevErr>| map_err(&e);
+    for sv in w0.closed_vols.iter().rev().take(2).cloned() {
+        let h = hid(&sv);
+        one("open_root_dir", h.clone(), &df, &|w| w.vm.open_root_dir(sv).map(|_| ()).map_err(me), out);
+        one("close_volume", h.clone(), &[], &|w| w.vm.close_volume(sv).map_err(me), out);
+        one("get_root_volume_label", h.clone(), &[], &|w| w.vm.get_root_volume_label(sv).map(|_| ()).map_err(me), out);
     }
-    for sd in w0.closed_dirs.iter().rev().take(2) {
-        let mut w = replay::<D, F, V>(base, id, hist);
-        let before = w.image_fp();
-        let r = catch_quiet(|| {
-            let mut res: Vec<(&str, Result<(), E>, Vec<E>)> = Vec::new();
-            let df = if dirs_full { vec![E::TooManyOpenDirs] } else { vec![] };
-            let ff = if files_full { vec![E::TooManyOpenFiles] } else { vec![] };
-            res.push(("open_dir", w.vm.open_dir(*sd, "SUB").map(|_| ()).map_err(|e| map_err(&e)), df.clone()));
-            res.push(("find_directory_entry", w.vm.find_directory_entry(*sd, "README.TXT").map(|_| ()).map_err(|e| map_err(&e)), vec![]));
-            res.push(("iterate_dir", w.vm.iterate_dir(*sd, |_| {}).map_err(|e| map_err(&e)), vec![]));
-            let mut st = [0u8; 64];
-            let mut lb = LfnBuffer::new(&mut st);
-            res.push(("iterate_dir_lfn", w.vm.iterate_dir_lfn(*sd, &mut lb, |_, _| {}).map_err(|e| map_err(&e)), vec![]));
-            res.push(("open_file_in_dir", w.vm.open_file_in_dir(*sd, "Z.TXT", Mode::ReadWriteCreateOrAppend).map(|_| ()).map_err(|e| map_err(&e)), ff));
-            res.push(("delete_file_in_dir", w.vm.delete_file_in_dir(*sd, "README.TXT").map_err(|e| map_err(&e)), vec![]));
-            res.push(("make_dir_in_dir", w.vm.make_dir_in_dir(*sd, "NEWDIR").map_err(|e| map_err(&e)), df));
-            res.push(("close_dir", w.vm.close_dir(*sd).map_err(|e| map_err(&e)), vec![]));
-            res
-        });
-        match r {
-            Caught::Ok(res) => {
-                for (name, r, alt) in res {
-                    n += 1;
-                    judge(name, r, &alt, out, hid(sd));
-                }
-            }
-            Caught::Panic(m) => out.push(("stale-handle/panic".into(), m)),
-        }
-        if w.image_fp() != before {
-            out.push(("stale-handle/medium-changed".into(), format!("calls with the closed directory handle {} changed the medium", hid(sd))));
-        }
-        if let Caught::Ok(Err(e)) = catch_quiet(|| w.capacity_probe()) {
-            out.push((format!("stale-handle/effect/{}", e.0), format!("after calls with the closed directory handle {}: {}", hid(sd), e.1)));
-        }
+    for sd in w0.closed_dirs.iter().rev().take(2).cloned() {
+        let h = hid(&sd);
+        one("open_dir", h.clone(), &df, &|w| w.vm.open_dir(sd, "SUB").map(|_| ()).map_err(me), out);
+        one("find_directory_entry", h.clone(), &[], &|w| w.vm.find_directory_entry(sd, "README.TXT").map(|_| ()).map_err(me), out);
+        one("iterate_dir", h.clone(), &[], &|w| w.vm.iterate_dir(sd, |_| {}).map_err(me), out);
+        one(
+            "iterate_dir_lfn",
+            h.clone(),
+            &[],
+            &|w| {
+                let mut st = [0u8; 64];
+                let mut lb = LfnBuffer::new(&mut st);
+                w.vm.iterate_dir_lfn(sd, &mut lb, |_, _| {}).map_err(me)
+            },
+            out,
+        );
+        one("open_file_in_dir", h.clone(), &ff, &|w| w.vm.open_file_in_dir(sd, "Z.TXT", Mode::ReadWriteCreateOrAppend).map(|_| ()).map_err(me), out);
+        one("delete_file_in_dir", h.clone(), &[], &|w| w.vm.delete_file_in_dir(sd, "README.TXT").map_err(me), out);
+        one("make_dir_in_dir", h.clone(), &df, &|w| w.vm.make_dir_in_dir(sd, "NEWDIR").map_err(me), out);
+        one("close_dir", h.clone(), &[], &|w| w.vm.close_dir(sd).map_err(me), out);
     }
-    for sf in w0.closed_files.iter().rev().take(2) {
-        let mut w = replay::<D, F, V>(base, id, hist);
-        let before = w.image_fp();
-        let r = catch_quiet(|| {
-            let mut res: Vec<(&str, Result<(), E>, Vec<E>)> = Vec::new();
-            let mut b = [0u8; 8];
-            res.push(("read", w.vm.read(*sf, &mut b).map(|_| ()).map_err(|e| map_err(&e)), vec![]));
-            res.push(("write", w.vm.write(*sf, b"stale").map_err(|e| map_err(&e)), vec![]));
-            res.push(("flush_file", w.vm.flush_file(*sf).map_err(|e| map_err(&e)), vec![]));
-            res.push(("file_eof", w.vm.file_eof(*sf).map(|_| ()).map_err(|e| map_err(&e)), vec![]));
-            res.push(("file_seek_from_start", w.vm.file_seek_from_start(*sf, 0).map_err(|e| map_err(&e)), vec![]));
-            res.push(("file_seek_from_current", w.vm.file_seek_from_current(*sf, 0).map_err(|e| map_err(&e)), vec![]));
-            res.push(("file_seek_from_end", w.vm.file_seek_from_end(*sf, 0).map_err(|e| map_err(&e)), vec![]));
-            res.push(("file_length", w.vm.file_length(*sf).map(|_| ()).map_err(|e| map_err(&e)), vec![]));
-            res.push(("file_offset", w.vm.file_offset(*sf).map(|_| ()).map_err(|e| map_err(&e)), vec![]));
-            res.push(("close_file", w.vm.close_file(*sf).map_err(|e| map_err(&e)), vec![]));
-            res
-        });
-        match r {
-            Caught::Ok(res) => {
-                for (name, r, alt) in res {
-                    n += 1;
-                    judge(name, r, &alt, out, hid(sf));
-                }
-            }
-            Caught::Panic(m) => out.push(("stale-handle/panic".into(), m)),
-        }
-        if w.image_fp() != before {
-            out.push(("stale-handle/medium-changed".into(), format!("calls with the closed file handle {} changed the medium", hid(sf))));
-        }
-        if let Caught::Ok(Err(e)) = catch_quiet(|| w.capacity_probe()) {
-            out.push((format!("stale-handle/effect/{}", e.0), format!("after calls with the closed file handle {}: {}", hid(sf), e.1)));
-        }
+    for sf in w0.closed_files.iter().rev().take(2).cloned() {
+        let h = hid(&sf);
+        one(
+            "read",
+            h.clone(),
+            &[],
+            &|w| {
+                let mut b = [0u8; 8];
+                w.vm.read(sf, &mut b).map(|_| ()).map_err(me)
+            },
+            out,
+        );
+        one("write", h.clone(), &[], &|w| w.vm.write(sf, b"stale").map_err(me), out);
+        one("flush_file", h.clone(), &[], &|w| w.vm.flush_file(sf).map_err(me), out);
+        one("file_eof", h.clone(), &[], &|w| w.vm.file_eof(sf).map(|_| ()).map_err(me), out);
+        one("file_seek_from_start", h.clone(), &[], &|w| w.vm.file_seek_from_start(sf, 0).map_err(me), out);
+        one("file_seek_from_current", h.clone(), &[], &|w| w.vm.file_seek_from_current(sf, 0).map_err(me), out);
+        one("file_seek_from_end", h.clone(), &[], &|w| w.vm.file_seek_from_end(sf, 0).map_err(me), out);
+        one("file_length", h.clone(), &[], &|w| w.vm.file_length(sf).map(|_| ()).map_err(me), out);
+        one("file_offset", h.clone(), &[], &|w| w.vm.file_offset(sf).map(|_| ()).map_err(me), out);
+        one("close_file", h.clone(), &[], &|w| w.vm.close_file(sf).map_err(me), out);
     }
     n
 }
